@@ -369,7 +369,11 @@ def decide_bool(t):
     ts = z3.simplify(t)
     if z3.is_true(ts): return True
     if z3.is_false(ts): return False
-    return C().decide([(True, t), (False, z3.Not(t))])
+    ctx = C()
+    key = ("bool", ts.get_id())
+    if key not in ctx.intcache:
+        ctx.intcache[key] = (ts, ctx.decide([(True, t), (False, z3.Not(t))]))
+    return ctx.intcache[key][1]
 
 
 def decide_int(t, lo, hi, what="index"):
